@@ -711,8 +711,17 @@ class Node:
                     self.connection_logger.debug(
                         f"new client TCP connection from {ip}:{port}")
 
-                    conn = PeerConnection(ip, port, PEER_RECV,
-                                          interrupt_fileno=self.interrupt_write)
+                    try:
+                        conn = PeerConnection(
+                            ip, port, PEER_RECV,
+                            interrupt_fileno=self.interrupt_write)
+                    except RuntimeError as e:
+                        # not possible to start the connection's threads
+                        self.connection_logger.warning(
+                            f"failed to serve new client connection from "
+                            f"{ip}:{port}: {e}")
+                        clientsocket.close()
+                        continue
                     conn.state = PEER_CONNECTED
                     self._add_peer_connection(conn, clientsocket,
                                               PEER_TRANSPORT_TCP)
@@ -733,8 +742,17 @@ class Node:
                     self.connection_logger.debug(
                         f"new client SCTP connection from {ip}:{port}")
 
-                    conn = PeerConnection(ip, port, PEER_RECV,
-                                          interrupt_fileno=self.interrupt_write)
+                    try:
+                        conn = PeerConnection(
+                            ip, port, PEER_RECV,
+                            interrupt_fileno=self.interrupt_write)
+                    except RuntimeError as e:
+                        # not possible to start the connection's threads
+                        self.connection_logger.warning(
+                            f"failed to serve new client connection from "
+                            f"{ip}:{port}: {e}")
+                        clientsocket.close()
+                        continue
                     conn.state = PEER_CONNECTED
                     self._add_peer_connection(conn, clientsocket,
                                               PEER_TRANSPORT_SCTP)
